@@ -1,9 +1,9 @@
 CONSTANTS
   MaxStack = 4
-  Budget = 5
+  Budget = 4
   Enabled = {"Name", "Const", "Attribute", "Call", "Subscript", "Slice", "Starred", "Tuple", "List", "Expression"}
   NameSet = {"a", "b"}
-  ExtraParens = FALSE
+  ExtraParens = TRUE
   Emit = TRUE
 SPECIFICATION Spec
 INVARIANTS EmitOK
